@@ -369,7 +369,7 @@ func VH_C07_MixedInlinedKinds() {
 	parent, _ := NewArray(storage, addr, vTypeInfo{id: 42})
 	kinds := make([]int, npos)
 	for i := range kinds {
-		kinds[i] = vhChoose("kind", 4)
+		kinds[i] = vhChoose("kind", 6)
 		val := uint64(10 * (i + 1))
 		switch kinds[i] {
 		case 0:
@@ -379,6 +379,13 @@ func VH_C07_MixedInlinedKinds() {
 		case 1:
 			m, _ := NewMap(storage, addr, NewDefaultDigesterBuilder(), vTypeInfo{id: 51})
 			_, _ = m.Set(vhCompareBK, vhHipB, vBKey{val: 100}, vU64(val))
+			_ = parent.Append(m)
+		case 4: // an inlined array whose type encodes to the same bytes as composite type 7
+			a, _ := NewArray(storage, addr, vTypeInfo{id: 1007})
+			_ = a.Append(vU64(val))
+			_ = parent.Append(a)
+		case 5: // an EMPTY composite map (no fields: its compact type id is its bare type)
+			m, _ := NewMap(storage, addr, NewDefaultDigesterBuilder(), vCompositeTypeInfo{id: 7})
 			_ = parent.Append(m)
 		case 2, 3:
 			m, _ := NewMap(storage, addr, NewDefaultDigesterBuilder(), vCompositeTypeInfo{id: 7})
@@ -442,6 +449,28 @@ func VH_C07_MixedInlinedKinds() {
 				vhAssert(vhTic(c.extraData.TypeInfo, vTypeInfo{id: 51}), "inlined map keeps its type")
 				got, has := field(c, 100)
 				vhAssert(has && got == val && c.extraData.Count == 1, "inlined map keeps its content")
+			}
+		case 4:
+			c, ok := ds.elements[i].(*ArrayDataSlab)
+			vhAssert(ok, "position decodes as an inlined array")
+			if ok {
+				// (the harness's type doubles decode 1007 as composite type 7: same encoded bytes)
+				enc := uint64(0)
+				switch t := c.extraData.TypeInfo.(type) {
+				case vTypeInfo:
+					enc = t.id
+				case vCompositeTypeInfo:
+					enc = t.id + 1000
+				}
+				vhAssert(enc == 1007, "inlined array keeps its type")
+				vhAssert(len(c.elements) == 1 && vhStorableEqual(c.elements[0], vU64(val)), "inlined array keeps its content")
+			}
+		case 5:
+			c, ok := ds.elements[i].(*MapDataSlab)
+			vhAssert(ok, "position decodes as an inlined (empty) composite map")
+			if ok {
+				vhAssert(vhTic(c.extraData.TypeInfo, vCompositeTypeInfo{id: 7}), "empty composite map keeps its type")
+				vhAssert(c.extraData.Count == 0, "empty composite map stays empty")
 			}
 		case 2, 3:
 			c, ok := ds.elements[i].(*MapDataSlab)
